@@ -34,6 +34,8 @@ abbrev Key := Int × String
 
 def showKey (k : Key) : String := s!"{k.1}/{k.2}"
 
+def showPt (p : Option Int) : String := match p with | some v => s!"{v}" | none => "none"
+
 structure PO where
   key : Key
   held : Bool
@@ -172,14 +174,14 @@ def monStep (g : Graph) (idx : Nat) (opJ : Json) (pre post : Ob) (m : Mon) : Mon
   let f5 : List String :=
     match hp1 with
     | some p => if post.hPoint == some p then [] else
-        [s!"hold-not-in-force: hold point {p} is set but the scheduler has {post.hPoint}, after {tag}"]
+        [s!"hold-not-in-force: hold point {p} is set but the scheduler has {showPt post.hPoint}, after {tag}"]
     | none => []
   -- 6. restart: nothing about holds changes
   let (f6, d6) : List String × List String :=
     match cmd with
     | .restart =>
       let a := if post.hPoint == pre.hPoint then [] else
-        [s!"hold-lost: hold point {pre.hPoint} before the stop, {post.hPoint} after the restart, {tag}"]
+        [s!"hold-lost: hold point {showPt pre.hPoint} before the stop, {showPt post.hPoint} after the restart, {tag}"]
       let b := pre.hTasks.filterMap fun k =>
         if post.hTasks.contains k then none
         else some s!"hold-lost: {showKey k} was in tasks_to_hold before the stop and is not after the restart, {tag}"
@@ -193,7 +195,7 @@ def monStep (g : Graph) (idx : Nat) (opJ : Json) (pre post : Ob) (m : Mon) : Mon
       let reheld := post.pool.filter fun x => x.held && (match pre.find x.key with | some y => !y.held | none => false)
       let d := reheld.filterMap fun x =>
         if beyond pre.hPoint x.key.1 then
-          some s!"rehold-after-restart: {showKey x.key} lies beyond the hold point {pre.hPoint}, had been released individually, and is held again after the restart, {tag}"
+          some s!"rehold-after-restart: {showKey x.key} lies beyond the hold point {showPt pre.hPoint}, had been released individually, and is held again after the restart, {tag}"
         else none
       let e := reheld.filterMap fun x =>
         if beyond pre.hPoint x.key.1 then none
